@@ -12,6 +12,8 @@ structure Facts where
   fixerNilGuard : Bool
   /-- (upper-case method literal, PathItem field) pairs passed to `analyzeOperation` by `analyzeOperations` -/
   analyzerMethods : List (String × String)
+  /-- `analyzeDefaultResponse` registers header enums (as `analyzeResponse` does) -/
+  defaultHeaderEnums : Bool
   /-- PathItem fields collected by mixin's `pathItemOps`, in source order -/
   mixinMethods : List String
   /-- `getOpIDs` / `mergePaths` ignore operations whose id is empty -/
@@ -30,6 +32,7 @@ def reference : Facts where
   fixerNilGuard := true
   analyzerMethods := [("GET", "get"), ("PUT", "put"), ("POST", "post"), ("PATCH", "patch"),
                       ("DELETE", "delete"), ("HEAD", "head"), ("OPTIONS", "options")]
+  defaultHeaderEnums := true
   mixinMethods := ["get", "put", "post", "delete", "head", "patch", "options"]
   mixinSkipsEmptyIDs := true
   mixinExtDocsGuard := true
